@@ -48,8 +48,9 @@ T = {
          "trusted: Coq kernel; " + REALS + "; " + CORR, "Rocq/Coq proof (Reals bridge lemma) + translation tie of the selector dispatch + boundary-directed correspondence"),
  "C09": ("split", "proof", "alias resolution (long name wins), max_read = pre-slicing, wav header codec round trip; partial: file system / wave module / stdin replacement are exercised, not modelled; "
          "pydub formats and microphone are out of reach in this sandbox",
-         "each generated (audio, parameters) is run through nine containers and long/short/both spellings and compared with the single model output (Split.v)",
-         "trusted: Coq kernel; " + REALS + "; " + CORR, "Rocq/Coq proof (model is a function of decoded audio + resolved parameters) + container/spelling correspondence"),
+         "the alias lookups of split(), split_and_plot() and _get_audio_parameters are evaluated symbolically on every run (each key absent or present with an opaque value) and proved to resolve as Split.resolve (TieAlias.v); "
+         "each generated (audio, parameters) is run through nine containers (stdin also as a bursty pipe) and long/short/both spellings in both keyword orders, with explicit None long names, and compared with the single model output (Split.v)",
+         "trusted: Coq kernel; " + REALS + "; " + CORR, "Rocq/Coq proof (model is a function of decoded audio + resolved parameters) + translation tie of the alias lookups + container/spelling correspondence"),
  "C10": ("reader", "proof", "fixed framing = chunks; overlap k-th block closed form, count and last-block lemmas; limiter = firstn; rejects",
          "IO/Reader.v written by hand from util.py's wrapper stack; the constructor arithmetic (block / hop / budget sizes and the rejects) is sliced and translated from util.py on every run and proved equal to Reader.reader_params for all float inputs (TieReader.v); "
          "read / rewind behaviour tied by exhaustive small-grid + random correspondence over buffer/raw/wav sources",
